@@ -44,6 +44,11 @@ pub struct MacroCase {
     pub args: Vec<Vec<ATree>>,
     pub tail: Vec<ATree>,
     pub gdef: bool,
+    /// Some(f): the call is issued from the body of a forwarding macro \\w#1#2 whose two arguments are
+    /// the stream split at a depth-0 position (fraction f); the halves are lexed separately, so space
+    /// tokens can be adjacent at the junction (impossible in directly typed source).
+    #[serde(default)]
+    pub wrap_split: Option<(u16, bool)>,
 }
 
 fn flatten(ts: &[ATree], out: &mut Vec<Tok>) {
@@ -207,12 +212,56 @@ pub fn build(c: &MacroCase) -> Built {
     if c.brace_delim {
         stream.push(Tok::Close);
     }
-    let stream = collapse_spaces(&stream);
-    text.push_str("\\expandafter\\vpcapture\\*");
-    for t in &stream {
-        render_tok(t, &mut text);
-    }
-    text.push_str("\\vpstop%");
+    let stream = match c.wrap_split {
+        None => {
+            let stream = collapse_spaces(&stream);
+            text.push_str("\\expandafter\\vpcapture\\*");
+            for t in &stream {
+                render_tok(t, &mut text);
+            }
+            text.push_str("\\vpstop%");
+            stream
+        }
+        Some((f, pad)) => {
+            // depth-0 split positions of the raw stream
+            let mut positions = vec![0usize];
+            let mut depth = 0i32;
+            for (i, t) in stream.iter().enumerate() {
+                match t {
+                    Tok::Open => depth += 1,
+                    Tok::Close => depth -= 1,
+                    _ => {}
+                }
+                if depth == 0 {
+                    positions.push(i + 1);
+                }
+            }
+            let p = positions[((f as usize) * positions.len()) >> 16];
+            let mut s1 = collapse_spaces(&stream[..p]);
+            let mut s2 = collapse_spaces(&stream[p..]);
+            if pad {
+                // make sure two space tokens meet at the junction
+                if s1.last() != Some(&Tok::Sp) && !matches!(s1.last(), Some(Tok::Cs(_))) && !s1.is_empty() {
+                    s1.push(Tok::Sp);
+                }
+                if s2.first() != Some(&Tok::Sp) {
+                    s2.insert(0, Tok::Sp);
+                }
+            }
+            text.push_str("\\def\\w#1#2{\\expandafter\\vpcapture\\*#1#2\\vpstop}\\w{");
+            for t in &s1 {
+                render_tok(t, &mut text);
+            }
+            text.push_str("}{");
+            for t in &s2 {
+                render_tok(t, &mut text);
+            }
+            text.push_str("}%");
+            let mut joined = s1;
+            joined.extend(s2);
+            joined
+        }
+    };
     let repl = flat.into_iter().map(|r| match r {
         FlatR::T(t) => FlatRPub::T(t),
         FlatR::P(i) => FlatRPub::P(i),
@@ -433,13 +482,14 @@ pub fn case_strategy() -> impl Strategy<Value = MacroCase> {
         proptest::collection::vec(arg_strategy(), 9),
         proptest::collection::vec(atree_strategy(), 0..4),
         proptest::bool::weighted(0.2),
+        proptest::option::weighted(0.3, (any::<u16>(), any::<bool>())),
     )
-        .prop_map(|(prefix, mut params, brace_delim, repl, args, tail, gdef)| {
+        .prop_map(|(prefix, mut params, brace_delim, repl, args, tail, gdef, wrap_split)| {
             // bias toward few parameters
             if params.len() > 3 && prefix.len() % 2 == 0 {
                 params.truncate(3);
             }
-            MacroCase { prefix, params, brace_delim, repl, args, tail, gdef }
+            MacroCase { prefix, params, brace_delim, repl, args, tail, gdef, wrap_split }
         })
 }
 
@@ -469,6 +519,8 @@ fn oracle(ctx: &Ctx, c: &MacroCase, case: &mut Case) -> Verdict {
             case.class_if(c.brace_delim, "#{");
             case.class_if(m.partial_delim_in_arg, "partial delimiter in arg");
             case.class_if(b.params.len() >= 4, "params>=4");
+            case.class_if(c.wrap_split.is_some(), "call issued from a forwarding macro");
+            case.class_if(b.stream.windows(2).any(|w| w[0] == Tok::Sp && w[1] == Tok::Sp), "adjacent space tokens in the stream");
             let expected: Vec<OutTok> = m.tokens.iter().map(to_out).collect();
             if r.error.is_none() && r.out == expected {
                 return Verdict::pass(nontrivial);
